@@ -273,6 +273,9 @@ func calcCueItvls(segStart, segDur, utcStart, cueDur int) []cueItvl {
 		if utcEndMS < ci.endMS {
 			ci.endMS = utcEndMS
 		}
+		if ci.endMS <= ci.startMS {
+			continue // the cue of this second was already over when the segment starts
+		}
 		ci.startMS += diff
 		ci.endMS += diff
 		itvls = append(itvls, ci)
